@@ -17,6 +17,10 @@ def lastIdxOfN (src : List (List Nat)) (r : List Nat) : Option Nat :=
   | some k => some (src.length - 1 - k)
   | none => none
 
+/-- `vals[idx] = new` on a value column (NumPy fancy assignment, in order). -/
+def scatter1 {α : Type} (vals : List α) (ps : List (Nat × α)) : List α :=
+  ps.foldl (fun vs p => vs.set p.1 p.2) vals
+
 /-- Subscript rows as the integer rows of the row-set helpers. -/
 def toIntRows (rows : List (List Nat)) : List Row := rows.map fun r => r.map Int.ofNat
 
@@ -62,6 +66,38 @@ def takeAt [Zero α] (S : Sparse α) (loc : List Nat) : Sparse α :=
 def padSubs (subs : List (List Nat)) (w : Nat) : List (List Nat) :=
   subs.map fun r => r ++ List.replicate (w - r.length) 0
 
+/-- Groups A / B / C of `_set_subscripts`.  `upd` pairs every distinct new subscript with
+its value; `tt_ismember_rows(newsubs, self.subs)` locates it among the stored subscripts.
+A: present and non-zero — the stored value is changed (`vals[tf[idxa]] = newvals[idxa]`);
+B: present and zero — the entry is removed (`keepsubs = setdiff1d(range(nnz), tf[idxb])`);
+C: absent and non-zero — appended. -/
+def updateEntries [Zero α] [BEq α] (subs1 : List (List Nat)) (vals : List α)
+    (upd : List (List Nat × α)) : List (List Nat) × List α :=
+  let valsA := scatter1 vals (upd.filterMap fun (t : List Nat × α) =>
+    match lastIdxOfN subs1 t.1 with
+    | some k => if t.2 == 0 then none else some ((k, t.2) : Nat × α)
+    | none => none)
+  let remove : List Nat := upd.filterMap fun (t : List Nat × α) =>
+    match lastIdxOfN subs1 t.1 with
+    | some k => if t.2 == 0 then some k else none
+    | none => none
+  let keep := setdiff1d (List.range subs1.length) remove
+  let subsB := keep.map fun k => subs1.getD k []
+  let valsB := keep.map fun k => valsA.getD k 0
+  let add := upd.filter fun (t : List Nat × α) => (lastIdxOfN subs1 t.1).isNone && !(t.2 == 0)
+  (subsB ++ add.map (·.1), valsB ++ add.map (·.2))
+
+/-- The right-hand side of `_set_subscripts` as one value per subscript: a number or a
+single value is repeated, a column must have one value per subscript
+(`tt_valscheck`, "Number of subscripts and number of values do not match"). -/
+def subsValues (rhs : Rhs α) (p : Nat) : Except Reject (List α) :=
+  match rhs with
+  | .scalar v => .ok (List.replicate p v)
+  | .col [v] => .ok (List.replicate p v)
+  | .col vs => if vs.length = p then .ok vs else .error .reject
+  | .arr _ => .error .reject    -- (a p×1 column right-hand side is `col`)
+  | .tensor _ => .error .reject
+
 /-- `_set_subscripts(key, value)`. -/
 def setSubscripts [Zero α] [BEq α] (S : Sparse α) (rows : List (List Nat)) (rhs : Rhs α) :
     Except Reject (Sparse α) :=
@@ -75,18 +111,7 @@ def setSubscripts [Zero α] [BEq α] (S : Sparse α) (rows : List (List Nat)) (r
       -- order growth: new modes of extent 1, stored subscripts padded with zeros
       let shape1 := S.shape ++ List.replicate (w - n) 1
       let subs1 := if w > n then padSubs S.subs w else S.subs
-      let p := rows.length
-      let newvals : Except Reject (List α) :=
-        let column (vs : List α) : Except Reject (List α) :=
-          match vs with
-          | [v] => .ok (List.replicate p v)
-          | vs => if vs.length = p then .ok vs else .error .reject
-        match rhs with
-        | .scalar v => .ok (List.replicate p v)
-        | .col vs => column vs
-        | .arr T => if T.shape = [T.data.length, 1] then column T.data else .error .reject
-        | .tensor _ => .error .reject
-      match newvals with
+      match subsValues rhs rows.length with
       | .error e => .error e
       | .ok newvals =>
         -- np.unique(newsubs[::-1]) : distinct rows, sorted; the last given value wins
@@ -95,30 +120,11 @@ def setSubscripts [Zero α] [BEq α] (S : Sparse α) (rows : List (List Nat)) (r
           match lastIdxOfN rows r with
           | some k => newvals.getD k 0
           | none => 0
-        -- tt_ismember_rows(newsubs, self.subs)
-        let tf := uniq.map fun r => lastIdxOfN subs1 r
-        let trip := uniq.zip (uvals.zip tf)
-        -- group A: present, non-zero: change the value
-        let valsA := trip.foldl (fun vs t =>
-          match t.2.2 with
-          | some k => if t.2.1 == 0 then vs else vs.set k t.2.1
-          | none => vs) S.vals
-        -- group B: present, zero: remove
-        let remove := trip.filterMap fun t =>
-          match t.2.2 with
-          | some k => if t.2.1 == 0 then some k else none
-          | none => none
-        let keep := setdiff1d (List.range subs1.length) remove
-        let subsB := keep.map fun k => subs1.getD k []
-        let valsB := keep.map fun k => valsA.getD k 0
-        -- group C: absent, non-zero: append
-        let add := trip.filter fun t => t.2.2.isNone && !(t.2.1 == 0)
-        let subsC := subsB ++ add.map (·.1)
-        let valsC := valsB ++ add.map (·.2.1)
+        let ent := updateEntries subs1 S.vals (uniq.zip uvals)
         -- resize
         let shape2 := (List.range shape1.length).map fun m =>
           max (shape1.getD m 0) (maxNat (uniq.map fun r => r.getD m 0) + 1)
-        .ok ⟨shape2, subsC, valsC⟩
+        .ok ⟨shape2, ent.1, ent.2⟩
 
 /-- New size of `_set_subtensor` for a scalar right-hand side. -/
 def newSizeScalar (shape : List Nat) (parts : List RPart) : Except Reject (List Nat) :=
@@ -167,7 +173,7 @@ def setSubtensorScalar [Zero α] [BEq α] (S : Sparse α) (parts : List RPart) (
       .ok ⟨shape', addsubs, addsubs.map fun _ => v⟩
     else
       let loc := intersectRows (toIntRows subs') (toIntRows addsubs)
-      let vals' := loc.foldl (fun vs k => vs.set k v) S.vals
+      let vals' := scatter1 S.vals (loc.map fun k => (k, v))
       let fresh := (setdiffRows (toIntRows addsubs) (toIntRows subs')).map fun k => addsubs.getD k []
       .ok ⟨shape', subs' ++ fresh, vals' ++ fresh.map fun _ => v⟩
 
